@@ -47,6 +47,12 @@ def base_scenarios(rng, tier):
     cs = dev("csrc", cost=50_000)
     cs["beh"]["outs"] = [{"port": "o", "kind": "const", "v": 5}]
     out.append({"components": [cs, dev("csnk", {"i": ["csrc", "o"]}, cost=50_000), dev("cper", cb={"kind": "period", "p": P}, cost=50_000)], "n_ticks": 3})
+    # a purely interrupt-driven system (no inner callback is ever pending) next to a periodic top-level device:
+    # whatever the system answers carries no call_at of its own
+    out.append({"components": [dev("per", cb={"kind": "period", "p": 2 * P}, cost=50_000),
+                               {"name": "isys", "kind": "sys", "inputs": {}, "expose": {"y": ["islow", "o"]},
+                                "components": [dev("itrig", cost=150_000), dev("islow", {"i": ["itrig", "o"]}, cost=400_000)]},
+                               dev("imon", {"i": ["isys", "y"]}, cost=50_000)], "n_ticks": 2, "same_device_pairs": ["itrig", "islow"]})
     # other speeds: the stamp converts real to simulation time
     for sp in ([1, 2], [2, 1]):
         out.append({"components": [dev("far", cb={"kind": "period", "p": 50 * P}), dev("x", cost=100_000), dev("y", {"i": ["x", "o"]}, cost=100_000)], "n_ticks": 2, "speed": sp})
@@ -334,6 +340,12 @@ def run(tier, seed, drv):
             for s0 in range(first, last + 1, 2 if tier == "thorough" else 5):
                 for k in ((0, 1, 2, 3, 5, 8) if tier == "thorough" else (0, 2, 5)):
                     items.append((scn, [{"step": s0, "comp": u}, {"step": s0 + k, "comp": d}], scn["n_ticks"], f"{si}:multi:pair:{u}:{d}:{s0}:{k}"))
+        # a SECOND interrupt of the same inner device k loop steps after the first, i.e. before, while and after
+        # the (nested) tick that serves the first one is running
+        for d in scn.get("same_device_pairs", []):
+            for s0 in range(first + 2, last + 1, 9 if tier == "quick" else 4):
+                for k in (range(1, 40, 2) if tier == "quick" else range(1, 60)):
+                    items.append((scn, [{"step": s0, "comp": d}, {"step": s0 + k, "comp": d}], scn["n_ticks"], f"{si}:multi:same:{d}:{s0}:{k}"))
         # simultaneous interrupts and interrupt together with a due callback
         for k in range(6 if tier == "quick" else 40):
             stims = [{"step": rng.randrange(first, last + 1), "comp": rng.choice(devs)} for _ in range(rng.randrange(2, 4))]
